@@ -302,4 +302,20 @@ PROPS = {
             rap("corruption", "^TestC07Corruption$", 2500, 25000, 4, 16),
         ],
     },
+    "C08": {
+        "level": "exploration",
+        "level_text": "metamorphic/differential search: each generated stream is demuxed under ~25 combinations of read schedule, reader kind, explicit/"
+                      "auto-detected packet size and 188+k framing, and with a read boundary at every offset of the first 400 bytes; all runs must "
+                      "equal the reference configuration (explicit 188, bytes.Reader, unfragmented)",
+        "level_note": "the relation is between runs of the library (the reference run is checked against the model by C02); with a plain non-seekable "
+                      "reader and auto-detection the documented loss of the detection window is accepted and only chunked == unchunked plus "
+                      "'returned packets are an unaltered tail of the stream' is asserted; extra bytes of oversized records are never 0x47",
+        "technique": "rapid metamorphic testing over read schedules/reader kinds/framings + exhaustive first-read boundary sweep",
+        "rule": "rapid-generated streams x configurations; non-trivial = every case; distinct by stream bytes",
+        "assumptions": ["a null packet (payload 0xFF) is the first packet so that the 193-byte detection window holds no spurious sync byte"],
+        "units": [
+            rap("reading", "^TestC08Reading$", 40, 400, 6, 16),
+            rap("boundaries", "^TestC08Boundaries$", 2, 20, 8, 16),
+        ],
+    },
 }
